@@ -22,6 +22,7 @@ package types
 // passes validateBasic. ethTxBasicValid(b): the facts about the bytes that the ante handlers and fee checkers rely on.
 //@ ghost func ethTxBasicValid(b bytes) bool = 20999 <= decGas(b) && decGas(b) < pow2(63) && 0 <= decFeeCap(b) && decFeeCap(b) < pow2(256) && (decType(b) == 2 ==> (0 <= decTipCap(b) && decTipCap(b) <= decFeeCap(b))) && decFeeCap(b) * decGas(b) < pow2(256)
 //@ func (msg *MsgEthereumTx) ValidateBasic() (err error)
+//@   deterministic[C01.no_node_local_source]
 //@   requires msg != nil
 //@   modifies nothing
 //@   ensures[C05.msg_basic,C06.msg_basic,C07.msg_basic,C09.msg_basic] err == nil ==> (bech32Valid(msg.From) && txDecodable(bytes(msg.MarshalledTx)) && ethTxBasicValid(bytes(msg.MarshalledTx)))
@@ -31,6 +32,7 @@ package types
 // transition: gas limit in [TxGas-1, MaxInt64], non-negative fee fields below 2^256 with tip cap <= fee cap, and a declared
 // fee (fee cap x gas) below 2^256.
 //@ func validateBasic(ethTx *ethtypes.Transaction) (err error)
+//@   deterministic[C01.no_node_local_source]
 //@   requires ethTx != nil
 //@   modifies nothing
 //@   ensures[C05.basic_gas_bounds,C09.basic_gas_bounds] err == nil ==> (20999 <= txGas(ethTx) && txGas(ethTx) < pow2(63))
